@@ -461,6 +461,7 @@ static int32_t wr_data_inner(struct jls_core_fsr_s * self, const void * data, ui
     uint8_t * dst_u8;
     uint8_t shift_this = (data_length * sample_size_bits) % 8;
     uint8_t shift_amount_next = (shift_this + self->shift_amount) % 8;
+    uint8_t pending_bits = self->shift_amount;  // carried bits already counted in entry_count (first pass only)
 
     while (data_length) {
         dst_u8 = (uint8_t *) &b->data[0];
@@ -471,7 +472,8 @@ static int32_t wr_data_inner(struct jls_core_fsr_s * self, const void * data, ui
         }
         if (self->shift_amount) {
             uint8_t mask = (1 << self->shift_amount) - 1;
-            uint32_t bits = length * sample_size_bits + self->shift_amount;
+            uint32_t bits = length * sample_size_bits + pending_bits;
+            pending_bits = 0;  // after the first block, the carried bits belong to this call's samples
             while (bits) {
                 uint16_t v = (self->shift_buffer & mask);
                 if (bits > self->shift_amount) {  // source bits remain
